@@ -12,7 +12,7 @@ from ..common import LEAN, VERIF, seed_rng, write_if_changed
 from ..slchecks import make_curve
 from .. import numref
 
-PROP_MODS = ['Stbem.Props.C03', 'Stbem.Props.C03Problems']
+PROP_MODS = ['Stbem.Props.C03', 'Stbem.Props.C03Problems', 'Stbem.Props.SLRestResidual']
 RULE = ('problems.py: every function problem_helper can hand out (14: u0, M0u0, u-trace, g, g-linform of the four factories and '
         'the two Dirichlet branches, the two complex-erf M0u0 included) and its dispatch table are regenerated into Lean '
         '(Gen/ProblemsQ.lean, Gen/ProblemsR.lean); the REAL functions run on exact (Gaussian) rationals with rational stand-ins '
@@ -22,7 +22,13 @@ RULE = ('problems.py: every function problem_helper can hand out (14: u0, M0u0, 
         'causal operator with polynomial potentials whose element integrals are known; the REAL '
         'ErrorEstimator.residual (both evaluation switches) built from that solution must have element means that '
         'vanish to rounding on random non-uniform meshes; the five signs and the row/column convention are '
-        'regenerated into Lean (Gen/Conventions.lean) where their consistency is a theorem. search: the real problems '
+        'regenerated into Lean (Gen/Conventions.lean) where their consistency is a theorem. ErrorEstimator.residual and the '
+        'assembly statements of example.py are regenerated statement by statement (translate/slrest.py -> Gen/SLRest.lean); '
+        'Props/SLRestResidual.lean proves that the generated residual is resVSign*V Phi + resM0Sign*M0u0 + resGSign*g (skipped '
+        'elements contribute 0) and Galerkin orthogonality for the generated residual against the generated system; the REAL '
+        'ErrorEstimator.residual runs on exact numbers (real SingleLayerOperator on Q numbers with stand-in special functions, '
+        'exact affine pieces, both switches, with / without M0u0 and g, acausal elements, points on other pieces) and must equal '
+        '`sl genres`; the ast slice of example.py runs on exact token operators and its rhs must equal `sl genslice`. search: the real problems '
         '(Dirichlet, MildSingular on every closed curve, Singular on unit square and L-shape, Smooth on the squares) '
         'on small meshes, both switches: |int_E r| <= 5e-5 int_E |r| + 1e-12 with a graded rule resolving the kinks; the data '
         'of problems.py on floats against model-independent references: g-linform = Gauss integral of g over real elements '
@@ -33,6 +39,8 @@ RULE = ('problems.py: every function problem_helper can hand out (14: u0, M0u0, 
 TRUSTED = [
     'Lean 4.33 kernel; axioms propext, Classical.choice, Quot.sound only',
     'translate/conventions.py (ast patterns of example.py, error_estimator.py, single_layer.py)',
+    'translate/slrest.py (ErrorEstimator.residual, assembly slice of example.py, rest of single_layer.py; object model in its '
+    'docstring; validated on every run by exact execution of the real residual / the real slice against the generated functions)',
     'on real data every hypothesis of the orthogonality theorem holds only to quadrature accuracy: search only (partial)',
     'translate/problemdefs.py (ast of problems.py; validated on every run by exact execution of the real functions)',
     'special functions of problems.py are parameters: erf : R -> R with erf\' = 2/sqrt(pi) exp(-x^2), odd, -> 1 at +oo; for the '
@@ -68,6 +76,117 @@ def translate(res):
     c = conventions.generate(repo, os.path.join(LEAN, 'Stbem', 'Gen'), write_if_changed)
     res.notes['conventions'] = c
     translate_problems(res)
+    # Gen/FormulasQ, Gen/Panels, Gen/SLRest: the generated residual calls the generated evaluate / evaluate_exact
+    from . import C04
+    C04.translate(res)
+
+
+def correspond_generated_residual(res, tier):
+    """The REAL `ErrorEstimator.residual` on exact numbers (real operator on Q numbers, exact affine pieces, rational stand-in
+    special functions and log rule) against the residual regenerated from the source (`sl genres`, Gen/SLRest.lean)."""
+    from fractions import Fraction as F
+    import src.error_estimator as EEmod
+    from ..common import q2s, run_driver
+    from ..qnum import Q, installed
+    from ..sllib import TIME_LATTICE, Fixture, qarr, random_space_intervals, result_str
+    from ..slchecks import ExactNP, data_fn, enc_data_fn, patched_module
+    rng = seed_rng(res.seed, 'C03r')
+    n_fix = 2 if tier == 'quick' else 8
+    for fi in range(n_fix):
+        curve = ['unitsquare', 'lshape', 'interval', 'rect32'][fi % 4]
+        fx = Fixture(rng, curve, bool(fi % 2), log_nodes=rng.randint(1, 3))
+        ivs = random_space_intervals(rng, fx, 8)
+        lines = fx.context_lines()
+        expect = ['ok'] * len(lines)
+        with installed(fx.standins), patched_module(EEmod, np=ExactNP()):
+            for _ in range(5 if tier == 'quick' else 20):
+                elems = [fx.elem(*rng.choice(TIME_LATTICE), *rng.choice(ivs)) for _ in range(rng.randint(1, 4))]
+                n_phi = len(elems) if rng.random() < 0.9 else len(elems) - 1      # a short Phi: IndexError on both sides
+                Phi = qarr([F(rng.randint(-5, 5), rng.randint(1, 4)) for _ in range(n_phi)])
+                cm = [F(rng.randint(-3, 3), rng.randint(1, 3)) for _ in range(4)] if rng.random() < 0.7 else None
+                cg = [F(rng.randint(-3, 3), rng.randint(1, 3)) for _ in range(4)] if rng.random() < 0.7 else None
+                for exact in (False, True):
+                    residual = EEmod.ErrorEstimator.residual(None, elems, Phi, fx.SL, data_fn(cm), data_fn(cg), SL_exact_eval=exact)
+                    # points on the piece of one of the elements (so that the closed-form switch is taken) or on any piece
+                    k = rng.choice(elems).piece_idx if rng.random() < 0.7 else rng.randrange(len(fx.pieces))
+                    a, b = fx.starts[k], fx.starts[k + 1]
+                    n_pts = rng.randint(1, 3)
+                    xs = [a + (b - a) * F(rng.randint(0, 16), 16) for _ in range(n_pts)]
+                    ts = [rng.choice([F(0), F(1, 8), F(1, 4), F(1, 2), F(5, 8), F(1), F(7, 4), F(3)]) for _ in range(n_pts)]
+                    if rng.random() < 0.4:     # just after the start of an element, seen from anywhere (sharp kernel, far point)
+                        ts[0] = rng.choice(elems).time_interval[0].v + F(1, 2**rng.randint(8, 14))
+                    if rng.random() < 0.1:
+                        ts = ts + [F(1)]           # len(t) != len(x_hat): the assertion of the closure
+                    try:
+                        want = ','.join(result_str(v) for v in residual(qarr(ts), qarr(xs), fx.pieces[k]))
+                    except AssertionError as exc:
+                        # QuadScheme1D.integrate asserts b - a > 1e-5 (in-element point at an end): not a case of the tie
+                        want = 'err assert:len' if len(ts) != len(xs) else None
+                    except IndexError:
+                        want = 'err raise:IndexError'
+                    if want is None:
+                        continue
+                    lines.append('sl genres %d %s %s %d %s %s %s %s' % (exact, enc_data_fn(cm), enc_data_fn(cg), k,
+                                 ','.join(q2s(v) for v in Phi) or '-', ','.join(q2s(v) for v in ts), ','.join(q2s(v) for v in xs),
+                                 ' '.join(e.encode() for e in elems)))
+                    expect.append(want)
+        out = run_driver(lines)
+        for line, want, got in zip(lines, expect, out):
+            if want == 'ok':
+                continue
+            res.count(('genres', line), not want.startswith('err'))
+            res.bump('generated_residual_requests')
+            if want.startswith('err'):
+                res.bump('generated_residual_' + want.split(':')[-1])
+            if want != got:
+                res.broken_obligation('correspondence C03: ErrorEstimator.residual differs from the residual regenerated from the '
+                                      'source (Gen/SLRest.lean)', 'curve %s pw_exact %s\nline: %s\npython: %s\nlean:   %s' %
+                                      (curve, fx.pw_exact, line[:600], want[:300], got[:300]))
+                return
+
+
+def correspond_generated_slice(res, tier, code):
+    """The ast slice of example.py on exact token operators: its `rhs` against the generated `assembly_slice` (`sl genslice`)."""
+    from fractions import Fraction as F
+    from ..common import q2s, run_driver
+    from ..qnum import Q
+    from ..sllib import qarr
+    from ..slchecks import ExactNP
+    rng = seed_rng(res.seed, 'C03sl')
+    lines, expect = [], []
+
+    class Lin:
+        solve = staticmethod(lambda mat, rhs: rhs)
+
+    class NPx(ExactNP):
+        linalg = Lin
+
+    for _ in range(8 if tier == 'quick' else 60):
+        n = rng.randint(0, 5)
+        m0 = [F(rng.randint(-9, 9), rng.randint(1, 5)) for _ in range(n)] if rng.random() < 0.7 else None
+        gv = [F(rng.randint(-9, 9), rng.randint(1, 5)) for _ in range(n)] if rng.random() < 0.7 else None
+
+        class Op:
+            def bilform_matrix(self, a, b, use_mp=False):
+                return 'mat'
+
+            def linform_vector(self, elems=None, use_mp=False):
+                return qarr(m0)
+        env = dict(SL=Op(), M0=Op() if m0 is not None else None, g_linform=(lambda elems: qarr(gv)) if gv is not None else None,
+                   elems=list(range(n)), N=n, mesh=None, np=NPx(), time=time, print=lambda *a, **k: None)
+        env['mesh'] = type('M', (), dict(leaf_elements=list(range(n))))()
+        exec(code, env)
+        lines.append('sl genslice %d %s %s' % (n, 'none' if m0 is None else (','.join(q2s(v) for v in m0) or '-'),
+                                              'none' if gv is None else (','.join(q2s(v) for v in gv) or '-')))
+        expect.append(','.join(q2s(v) for v in env['rhs']))
+    out = run_driver(lines)
+    for line, want, got in zip(lines, expect, out):
+        res.count(('genslice', line), True)
+        res.bump('generated_slice_requests')
+        if want != got:
+            res.broken_obligation('correspondence C03: the assembly statements of example.py differ from the generated assembly_slice',
+                                  'line: %s\npython rhs: %s\nlean rhs:   %s' % (line, want, got))
+            return
 
 
 def correspond_problems(res, tier):
@@ -210,6 +329,8 @@ def correspond(res, tier):
     rng = seed_rng(res.seed, 'C03')
     code, text = assembly_slice()
     res.sample(dict(assembly_statements=text))
+    correspond_generated_residual(res, tier)
+    correspond_generated_slice(res, tier, code)
     n_mesh = 4 if tier == 'quick' else 25
     for mi in range(n_mesh):
         cname = ['UnitSquare', 'LShape', 'UnitSquare', 'PiSquare'][mi % 4]
